@@ -139,6 +139,35 @@ Example C12_mid_drain_blocked :
   step ex_params_mid c (TPipe 3) = None /\ step ex_params_mid c (TImpl 0) = None.
 Proof. exact mid_drain_blocked. Qed.
 
+(* liveness of the drain (queue-full blocking): a caller blocked on a full queue is released when
+   the drain STARTS (close(aq.draining) precedes the delivery / rejection of queued calls); in reject
+   every blocked caller can move from the moment the goroutine is inside reject; after fulfill /
+   reject has ended no caller stays blocked. (The wait of Promise.Reject/Fulfill for in-flight
+   pipelined calls - capnp.Promise.ongoingCalls - is not part of this model; it is exercised by the
+   correspondence run with PipelineSend-mode calls, see docs.) *)
+Theorem C12_blocked_caller_enabled : forall P c p, reachable P c ->
+  (ppc c p = PWaitDrain -> aq_ph c (proot c p) <> AQueueing -> step P c (TPipe p) <> None) /\
+  (ppc c p = PWaitReady -> ready_closed c (proot c p) = true -> step P c (TPipe p) <> None).
+Proof. exact blocked_caller_enabled_lemma. Qed.
+Print Assumptions C12_blocked_caller_enabled.
+
+Theorem C12_reject_releases_callers : forall P c a p, reachable P c ->
+  ierr c a = true -> iclass (ipc c a) <> 0 -> proot c p = a -> waiting_caller (ppc c p) ->
+  step P c (TPipe p) <> None.
+Proof. exact reject_releases_callers_lemma. Qed.
+Print Assumptions C12_reject_releases_callers.
+
+Theorem C12_drained_releases_callers : forall P c a p, reachable P c ->
+  aq_ph c a = ADrained -> proot c p = a -> waiting_caller (ppc c p) -> step P c (TPipe p) <> None.
+Proof. exact drained_releases_callers_lemma. Qed.
+Print Assumptions C12_drained_releases_callers.
+
+Example C12_full_queue_reject_releases :
+  let c := run ex_params_full (init ex_params_full) ex_sched_full in
+  ppc c 1 = PQueued /\ ppc c 2 = PWaitDrain /\ ppc c 3 = PWaitDrain /\ aq_ph c 0 = ADraining 0 /\
+  step ex_params_full c (TPipe 2) <> None /\ step ex_params_full c (TPipe 3) <> None.
+Proof. exact full_queue_reject_releases. Qed.
+
 (* no_stuck (deadlock freedom), for every policy with MaxConcurrentCalls >= 1 (New guarantees it):
    in every reachable configuration in which some thread has begun and not finished (a start
    goroutine, an implementation goroutine, a pipelined call, Shutdown) either a step of the
